@@ -488,6 +488,102 @@ def _parallel_results_used(env):
     return m.ob_results_are_used(env)
 
 
+def ob_refine_integrate(env):
+    """PsiContour.refinePointIntegrate: integrates dR/dpsi = grad(psi)/|grad(psi)|^2 from (psi(p), p) to psival and returns the END of that integration
+    (whatever number of steps the integrator took); raises SolutionError when the integrator reports failure"""
+    sym = env.mode == "sym"
+    c = eqm.PsiContour.__new__(eqm.PsiContour)
+    c.psival = env.real("psival")
+    a, b, c0 = env.real("dpsidR", lo=0.1, hi=3), env.real("dpsidZ", lo=-3, hi=3), env.real("psi_offset")
+    psi = lambda R, Z: a * R + b * Z + c0    # noqa: E731  linear psi: the code's finite differences are exact
+    p = Point2D(env.real("pR", lo=1, hi=3), env.real("pZ", lo=-2, hi=2))
+    nsteps = 1 + env.choose(3)
+    env.tag("integrator_steps=%d" % nsteps)
+    ok = bool(env.choose(2))
+    cols = [(p.R, p.Z)] + [(env.real("yR%d" % k), env.real("yZ%d" % k)) for k in range(1, nsteps + 1)]
+    seen = {}
+
+    def solve_ivp(fun, t_span, y0, **kw):
+        seen.update(fun=fun, t_span=t_span, y0=list(y0), kw=kw)
+        y = numpy.empty((2, nsteps + 1), dtype=object if sym else float)
+        for k, (r_, z_) in enumerate(cols):
+            y[0, k], y[1, k] = r_, z_
+        return types.SimpleNamespace(success=ok, y=y, t=None)
+
+    with patched((eqm, "solve_ivp", solve_ivp)):
+        try:
+            q = c.refinePointIntegrate(p, Point2D(0.0, 1.0), psi=psi, width=0.1, atol=1.0e-8)
+        except eqm.SolutionError:
+            env.tag("refused")
+            env.claim("SolutionError_only_when_the_integrator_failed", not ok)
+            return
+    env.witness("returned")
+    env.claim("returns_only_when_the_integrator_succeeded", ok)
+    env.claim_eq("integration_starts_at_psi(p)", seen["t_span"][0], psi(p.R, p.Z))
+    env.claim_eq("integration_ends_at_psival", seen["t_span"][1], c.psival)
+    env.claim_eq("initial_state_is_p(R)", seen["y0"][0], p.R)
+    env.claim_eq("initial_state_is_p(Z)", seen["y0"][1], p.Z)
+    env.claim_eq("returned_point_is_the_end_of_the_integration(R)", q.R, cols[-1][0])
+    env.claim_eq("returned_point_is_the_end_of_the_integration(Z)", q.Z, cols[-1][1])
+    # the integrated field: d(R,Z)/dpsi = grad(psi)/|grad(psi)|^2 (exact derivatives of the linear psi)
+    if sym:
+        x = [env.real("xR", lo=1, hi=3), env.real("xZ", lo=-2, hi=2)]
+        f = seen["fun"](env.real("t"), x, eps=1)
+        env.claim_eq("rhs_R=dpsidR/|grad psi|^2", f[0], a / (a * a + b * b))
+        env.claim_eq("rhs_Z=dpsidZ/|grad psi|^2", f[1], b / (a * a + b * b))
+
+
+OBLIGATIONS.append(Ob("refinePointIntegrate_contract", ob_refine_integrate, tier="quick", family="refinement",
+                      encodes=["hypnotoad.core.equilibrium:PsiContour.refinePointIntegrate"],
+                      desc="the 'integrate' refinement returns the end point of the integration from psi(p) to psival, for 1..3 integrator steps; failure raises SolutionError",
+                      stubs=["solve_ivp -> symbolic trajectory with 1..3 steps (its accuracy is the integrator's contract)"],
+                      bounds="linear psi with symbolic coefficients (finite differences exact); 1-3 steps", max_paths=40))
+
+
+def ob_refine_linesearch(env):
+    """PsiContour.refinePointLinesearch: the point returned lies on the line through p perpendicular to the tangent, within the search width, and psi there
+    is psival (given brentq's contract: it returns a root of the function it was handed); a point already within tolerance is returned unchanged"""
+    sym = env.mode == "sym"
+    env.resolve_abs = False
+    c = eqm.PsiContour.__new__(eqm.PsiContour)
+    c.psival = env.real("psival", lo=0.5, hi=3)
+    a, b, c0 = env.real("dpsidR", lo=0.1, hi=3), env.real("dpsidZ", lo=-3, hi=3), env.real("psi_offset", lo=-3, hi=3)
+    psi = lambda R, Z: a * R + b * Z + c0    # noqa: E731
+    p = Point2D(env.real("pR", lo=1, hi=3), env.real("pZ", lo=-2, hi=2))
+    tang = Point2D(0.6, 0.8)                 # unit tangent: the perpendicular is (0.8, -0.6)
+    width = env.real("width", lo=0.01, hi=1)
+    atol = 1.0e-8
+    calls = []
+
+    def brentq(f, lo, hi, xtol=None, full_output=False, **kw):
+        s_ = env.real("root%d" % len(calls), lo=lo, hi=hi)
+        calls.append((f, lo, hi, xtol))
+        env.assume(env.close(f(s_), 0.0) if not sym else (f(s_) == 0), "brentq returns a root")
+        return s_, types.SimpleNamespace(converged=True)
+
+    with patched((eqm, "brentq", brentq)), sym_numpy(env, eqm):
+        q = c.refinePointLinesearch(p, tang, psi=psi, width=width, atol=atol)
+    env.witness("returned")
+    if not calls:
+        env.tag("already_within_tolerance")
+        env.claim("unchanged_point_only_if_within_tolerance", abs(psi(p.R, p.Z) - c.psival) < atol * abs(c.psival))
+        env.claim("point_returned_unchanged", q is p)
+        return
+    env.tag("searched")
+    env.claim_eq("psi(returned)=psival", psi(q.R, q.Z), c.psival)
+    env.claim_eq("returned_point_on_the_perpendicular_through_p", (q.R - p.R) * tang.R + (q.Z - p.Z) * tang.Z, 0)
+    d2 = (q.R - p.R) ** 2 + (q.Z - p.Z) ** 2
+    env.claim("returned_point_within_the_search_width", d2 <= width * width * 1.0000001)
+    env.claim("search_interval_is_[0,1]_with_the_requested_tolerance", calls[0][1] == 0.0 and calls[0][2] == 1.0 and calls[0][3] == atol)
+
+
+OBLIGATIONS.append(Ob("refinePointLinesearch_contract", ob_refine_linesearch, tier="quick", family="refinement",
+                      encodes=["hypnotoad.core.equilibrium:PsiContour.refinePointLinesearch"],
+                      desc="the 'line' refinement returns a point of the perpendicular line through p, within the search width, where psi = psival; an accurate point is kept",
+                      stubs=["brentq -> a root of the function it is handed (first attempt converges)"],
+                      bounds="linear psi with symbolic coefficients, symbolic point and width; halving of the width after a failed search not explored", max_paths=20))
+
+
 def _xpoint_markers(kind):
     def body(env):
         import harness.c08 as m   # resolved at call time
